@@ -1,6 +1,7 @@
 import QV.Shared.SchedLemmas
 import QV.C23.Spec
 import QV.C23.Lemmas
+import QV.Shared.HandlerLemmas
 /-
 C23 — Memory accesses are sequentially consistent in the dependency graph.
 Property theorems only.  The supporting invariant (`QInv`, `QInv.step`, `runItems_memInv`) lives in
@@ -311,6 +312,78 @@ reads, and nothing older than the last write is ever reported. (Independent spec
 theorem C23_history_exact (h : List Access) :
     AllExact Queue.memInit [] h (runHistory (QMap.empty Queue.memInit) h).2 :=
   history_exact _ h _ [] (Exact.empty _ rfl)
+
+/-! ### Composition with C27: the memory clause over the SPECIFICATION of what an instruction accesses
+
+`HandlerFromAst.answersOf` computes the default handler's answers from the shared full AST through C27's proved
+model of `memory_accesses`; `AccessesA p i r k` is C27's specification (`Reads` / `Writes` / `Captures` of the
+projected instruction) for the region NAMED `r`.  Nothing about the handler is assumed here any more. -/
+
+open QV.HandlerFromAst in
+/-- the memory clause of C23 for a block of an AST program, with access sets given by C27's specification -/
+structure AstMemSpec (p : AProgram) (ab : ABlock) (es : List Edge) : Prop where
+  /-- of two instructions in block order that C27's specification says access one region, one of them writing or
+  capturing it, the later is reachable from the earlier through `AwaitMemoryAccess` edges -/
+  ordered : ab.items.Pairwise fun x y => ∀ r k1 k2, AccessesA p x.2 r k1 → AccessesA p y.2 r k2 →
+    Conflict k1 k2 → Reach es isAwait x.1 y.1
+  /-- every `AwaitMemoryAccess(k)` edge goes forward and joins two instructions of which the specification says:
+  the source performs `k` on some region, the target accesses the same region, and the two conflict -/
+  justified : ∀ e ∈ es, ∀ k, e.label = .await k →
+    e.src.pos ab.instrs.length < e.dst.pos ab.instrs.length ∧
+    ∃ r k2 i j, (e.src, i) ∈ ab.items ∧ (e.dst, j) ∈ ab.items ∧ AccessesA p i r k ∧ AccessesA p j r k2 ∧
+      Conflict k k2
+
+open QV.HandlerFromAst in
+/-- **C23 ∘ C27 (every AST program, every block).** For any program given as the list of instructions added to it
+(plus its extern signature map), any basic block C28's model of the CFG yields, and the graph `build` produces
+from the default handler's answers COMPUTED from the AST: the memory clause holds with "reads / writes /
+captures region r" meaning C27's specification of the instruction. -/
+theorem C23_ast_memSpec (p : AProgram) (ab : ABlock) (hab : ab ∈ astBlocks p) (es : List Edge)
+    (h : buildBlock (schedBlock p ab) = .ok es) : AstMemSpec p ab es := by
+  have hspec := C23_build_memSpec _ es h
+  have hok := build_noMemErr _ es h
+  rw [schedBlock_items] at hok
+  have names : ∀ x ∈ ab.items, ∃ rs ws cs, accessNames p x.2 = some (rs, ws, cs) := by
+    intro x hx
+    have := hok (x.1, answersOf p x.2) (List.mem_map.2 ⟨x, hx, rfl⟩)
+    simp only [answersOf, Option.isNone_eq_false_iff, Option.isSome_iff_exists] at this
+    obtain ⟨t, ht⟩ := this
+    exact ⟨t.1, t.2.1, t.2.2, ht⟩
+  have toMem : ∀ x ∈ ab.items, ∀ r k, AccessesA p x.2 r k → (regionId p r, k) ∈ memAccesses (answersOf p x.2) := by
+    intro x hx r k hacc
+    obtain ⟨rs, ws, cs, hn⟩ := names x hx
+    rw [mem_memAccesses_answers]
+    exact ⟨rs, ws, cs, hn, r, rfl, (accessNames_some p x.2 rs ws cs hn r k).1 hacc⟩
+  have hlen : (schedBlock p ab).instrs.length = ab.instrs.length := by simp [schedBlock]
+  constructor
+  · have ho := hspec.ordered
+    rw [schedBlock_items, List.pairwise_map] at ho
+    refine ho.imp_of_mem ?_
+    intro x y hx hy hxy r k1 k2 h1 h2 hc
+    exact hxy (regionId p r) k1 k2 (toMem x hx r k1 h1) (toMem y hy r k2 h2) hc
+  · intro e he k hk
+    obtain ⟨hpos, rid, k2, ⟨ins1, hi1, hm1⟩, ⟨ins2, hi2, hm2⟩, hc⟩ := hspec.justified e he k hk
+    rw [hlen] at hpos
+    rw [schedBlock_items] at hi1 hi2
+    obtain ⟨x, hx, hxe⟩ := List.mem_map.1 hi1
+    obtain ⟨y, hy, hye⟩ := List.mem_map.1 hi2
+    simp only [Prod.mk.injEq] at hxe hye
+    obtain ⟨hx1, rfl⟩ := hxe
+    obtain ⟨hy1, rfl⟩ := hye
+    obtain ⟨rs, ws, cs, hn, r, hr1, hr2⟩ := (mem_memAccesses_answers p x.2 (rid, k)).1 hm1
+    obtain ⟨rs', ws', cs', hn', r', hr1', hr2'⟩ := (mem_memAccesses_answers p y.2 (rid, k2)).1 hm2
+    simp only at hr1 hr2 hr1' hr2'
+    have hu : r ∈ regionUniverse p := mem_universe p ab hab x.2 (mem_items_all hx) rs ws cs hn r (by
+      cases k <;> simp_all)
+    have hu' : r' ∈ regionUniverse p := mem_universe p ab hab y.2 (mem_items_all hy) rs' ws' cs' hn' r' (by
+      cases k2 <;> simp_all)
+    have hrr : r = r' := indexIn_inj _ r r' hu hu' (by
+      have : regionId p r = regionId p r' := by rw [← hr1, ← hr1']
+      exact this)
+    subst hrr
+    refine ⟨hpos, r, k2, x.2, y.2, by rw [← hx1]; exact hx, by rw [← hy1]; exact hy, ?_, ?_, hc⟩
+    · exact (accessNames_some p x.2 rs ws cs hn r k).2 hr2
+    · exact (accessNames_some p y.2 rs' ws' cs' hn' r k2).2 hr2'
 
 /-! ### Non-vacuity -/
 
